@@ -195,6 +195,6 @@ func FlushAll() {
 		r.mu.Unlock()
 		b, _ := json.Marshal(sf)
 		os.MkdirAll(dir, 0o755)
-		os.WriteFile(filepath.Join(dir, fmt.Sprintf("%s-shard-%s.json", r.Property, shard)), b, 0o644)
+		os.WriteFile(filepath.Join(dir, fmt.Sprintf("%s-shard-%s-%s.json", r.Property, os.Getenv("VERIF_STEP"), shard)), b, 0o644)
 	}
 }
